@@ -170,9 +170,7 @@ func (fc *fnCtx) bindParamsFresh() {
 	}
 	// heap well-formedness at entry: every reference stored anywhere in the entry heap is older than AC0
 	if !g.lite {
-		for _, k := range []string{"HPr", "HSr", "HIr"} {
-			g.assume(fmt.Sprintf("(forall ((r Int) (s (_ BitVec 64))) (! (< (select (select %s r) s) %s) :pattern ((select (select %s r) s))))", fc.entryHeap[k], fc.entryAC, fc.entryHeap[k]))
-		}
+		g.registerBaseHeap(fc.entryHeap, fc.entryAC)
 	}
 	if c := g.w.contractOf(fc.fn); c != nil {
 		sc := fc.specCtxEntry()
@@ -765,9 +763,7 @@ func (fc *fnCtx) loopHeader(b *ssa.BasicBlock, c *contract) {
 		ac := g.declare(g.freshName("AC"), "Int")
 		g.assume(fmt.Sprintf("(>= %s %s)", ac, entryAC))
 		if !g.lite {
-			for _, k := range []string{"HPr", "HSr", "HIr"} {
-				g.assume(fmt.Sprintf("(forall ((r Int) (s (_ BitVec 64))) (! (< (select (select %s r) s) %s) :pattern ((select (select %s r) s))))", fresh[k], ac, fresh[k]))
-			}
+			g.registerBaseHeap(fresh, ac)
 		}
 		fc.curAC = ac
 		fc.loopEntryH[b] = entryH
